@@ -33,7 +33,12 @@ import jax
 import jax.tree_util as jtu
 import numpy as np
 
-from jax2onnx.plugins._patching import AssignSpec, MonkeyPatchSpec, apply_patches
+from jax2onnx.plugins._patching import (
+    AssignSpec,
+    MonkeyPatchSpec,
+    _owns_attr,
+    apply_patches,
+)
 from jax2onnx.plugins.jax._autodiff_utils import backfill_missing_transpose_rules
 from jax2onnx._compat.jax import (
     NOT_MAPPED,
@@ -1389,9 +1394,10 @@ def apply_monkey_patches() -> Iterator[None]:
             st = _PATCH_STATE.get(key)
             if st is None:
                 orig = getattr(tgt, attr)
+                own = _owns_attr(tgt, attr)
                 new = patch_fn(orig)
                 setattr(tgt, attr, new)
-                _PATCH_STATE[key] = {"orig": orig, "count": 1}
+                _PATCH_STATE[key] = {"orig": orig, "count": 1, "own": own}
             else:
                 st["count"] += 1
             touched.append(key)
@@ -1406,7 +1412,15 @@ def apply_monkey_patches() -> Iterator[None]:
             if st["count"] == 0:
                 tgt, attr = key
                 try:
-                    setattr(tgt, attr, st["orig"])
+                    if st.get("own", True):
+                        setattr(tgt, attr, st["orig"])
+                    else:
+                        # Inherited attribute: remove our override rather than
+                        # pinning the looked-up value on the target itself.
+                        try:
+                            delattr(tgt, attr)
+                        except Exception:
+                            setattr(tgt, attr, st["orig"])
                 finally:
                     _PATCH_STATE.pop(key, None)
 
